@@ -7,7 +7,7 @@
    ZeroCopyReadPacketData (zc=true) until an I/O-class error (EOF, unexpected EOF, read error),
    a panic, or `fuel` calls; each result carries the list of make([]byte, n) requests of the call.
    The only hypothesis is that the stream delivers bytes (0..255). *)
-From GP Require Import Base PcapModel PcapStream PcapSafe PcapSafeTop SnoopOrigModel.
+From GP Require Import Base PcapModel PcapStream PcapSafe PcapSafeTop PcapSetSnaplen SnoopOrigModel.
 Open Scope Z_scope.
 
 (* ---------------------------------------------------------------- classic pcap reader *)
@@ -23,6 +23,32 @@ Theorem C15_pcap_terminates : forall zc fuel s, bytes_ok (flat s) ->
   (length (flat s) < 16 * fuel)%nat -> snd (pcap_run zc fuel s) = true.
 Proof. exact pcap_terminates. Qed.
 Print Assumptions C15_pcap_terminates.
+
+(* the same with the consumer calling Reader.SetSnaplen (any uint32 value) before any of the reads
+   (sched: one optional value per read call): no panic, every make([]byte, n) request below 2^32,
+   every returned packet has len(data) = CaptureLength <= Length, and the loop still terminates;
+   an empty schedule is the plain run *)
+Theorem C15_pcap_setsnaplen_safe : forall zc fuel sched s, bytes_ok (flat s) -> Forall snap_ok sched ->
+  let '(h, _, rs, fin) := pcap_run_sn zc fuel sched s in
+  (forall x, h <> Panic x) /\
+  Forall (fun ra => (forall x, fst ra <> Panic x) /\ Forall (fun a => 0 <= a < 4294967296) (snd ra) /\
+                    (forall p, fst ra = Ok p -> Z.of_nat (length (k_data p)) = k_caplen p /\ k_caplen p <= k_len p)) rs /\
+  ((length (flat s) < 16 * fuel)%nat -> fin = true).
+Proof. exact pcap_setsnaplen_safe. Qed.
+Print Assumptions C15_pcap_setsnaplen_safe.
+Theorem C15_pcap_setsnaplen_none : forall zc fuel s, pcap_run_sn zc fuel [] s = pcap_run zc fuel s.
+Proof. exact pcap_run_sn_nil. Qed.
+Print Assumptions C15_pcap_setsnaplen_none.
+(* non-vacuity: raising the snap length after a first zero-copy read lets a larger record through,
+   with one new buffer of the larger size *)
+Example C15_pcap_setsnaplen_example :
+  let hdr := [212; 195; 178; 161; 2; 0; 4; 0; 0; 0; 0; 0; 0; 0; 0; 0; 2; 0; 0; 0; 1; 0; 0; 0] in
+  let r1 := [1; 0; 0; 0; 0; 0; 0; 0; 2; 0; 0; 0; 2; 0; 0; 0; 170; 187] in
+  let r2 := [2; 0; 0; 0; 0; 0; 0; 0; 3; 0; 0; 0; 3; 0; 0; 0; 1; 2; 3] in
+  map (fun ra => match fst ra with Ok p => k_caplen p | _ => -1 end)
+      (snd (fst (pcap_run_sn true 3 [None; Some 3] [Chunk (hdr ++ r1 ++ r2)]))) = [2; 3; -1]
+  /\ map snd (snd (fst (pcap_run_sn true 3 [None; Some 3] [Chunk (hdr ++ r1 ++ r2)]))) = [[2]; [3]; []].
+Proof. vm_compute. split; reflexivity. Qed.
 
 (* NewReader requests 24 bytes; every later request is at most the snap length declared in
    the file header (bytes 16..20 in the file's byte order), which is < 2^32 *)
